@@ -61,6 +61,7 @@ type c37Case struct {
 	Inner int       `json:"inner,omitempty"` // conc: the goroutines meet at a barrier before every Inner-th pass
 	Hist  *c37Hist  `json:"hist,omitempty"`  // replay of a saved history: re-check only, nothing is executed
 	Cap   *c37Cap   `json:"cap,omitempty"`
+	Srv   *c37Srv   `json:"srv,omitempty"`
 }
 
 // ---- generators ------------------------------------------------------------------------------
@@ -197,8 +198,13 @@ func genC37Conc(t *rapid.T) c37Case {
 func genC37(t *rapid.T) c37Case {
 	// (rapid's integer generators are biased towards small values; booleans are fair)
 	conc := rapid.Bool().Draw(t, "concurrent")
-	if c37CapEnabled && fairInt(t, 32, "cap") == 0 {
-		return genC37Cap(t)
+	if c37CapEnabled {
+		switch fairInt(t, 32, "server") {
+		case 0:
+			return genC37Cap(t)
+		case 1, 2:
+			return genC37Srv(t)
+		}
 	}
 	if conc {
 		return genC37Conc(t)
@@ -450,8 +456,15 @@ func c37SaveHistory(c c37Case, h c37Hist, msg string) string {
 	return path
 }
 
+var c37ModeMs = map[string]int{}
+
 func runC37(ctx *ev.Ctx, c c37Case) {
 	ctx.Label("mode:" + c.Mode)
+	t0 := time.Now() // bookkeeping only (evidence table mode_wall_us), never part of an oracle
+	defer func() {
+		c37ModeMs[c.Mode] += int(time.Since(t0).Microseconds())
+		ev.Get("C37").Extra("mode_wall_us", c37ModeMs)
+	}()
 	if c.NIDs > maxTxIDs {
 		ctx.Failf("harness: nids out of range")
 	}
@@ -460,7 +473,7 @@ func runC37(ctx *ev.Ctx, c c37Case) {
 		runC37Seq(ctx, c)
 	case "conc":
 		runC37Conc(ctx, c)
-	case "cap":
+	case "cap", "srv":
 		runC37Cap(ctx, c)
 	default:
 		ctx.Failf("harness: unknown mode %q", c.Mode)
@@ -478,8 +491,10 @@ func TestC37(t *testing.T) {
 			"linearizability (porcupine) against the same model, pool content at quiescence included; schedules are those the Go scheduler produced "+
 			"(sampled, not enumerated); (cap, 1 case in 32) the real TXPoolServer + tx actor + workers over a real ledger, pool pre-filled to "+
 			"MAX_CAPACITY-0..3, 1..6 submissions (new / duplicate of pool / duplicate of pending / outsider) through the tx actor while gated validators "+
-			"hold their answers, then verification completes. non-trivial: (seq) a duplicate add was rejected and a get/unverified query met both valid and outdated "+
+			"hold their answers, then verification completes; (srv, 1 case in 16) the same server with instantly answering validators, pool pre-filled with "+
+			"1..4000 transactions verified at height 0, 1..6 rounds of consensus pool requests at rising heights (with submissions arriving meanwhile) / "+
+			"submissions / block commits, conservation of every admitted hash checked at quiescence after every round. non-trivial: (seq) a duplicate add was rejected and a get/unverified query met both valid and outdated "+
 			"entries; (conc) at least one pair of operations of different goroutines really overlapped in time with a mutating operation among "+
-			"them; (cap) a submission met pool+pending at the capacity; distinct by JSON encoding of the case",
+			"them; (cap) a submission met pool+pending at the capacity; (srv) a pool request met outdated entries; distinct by JSON encoding of the case",
 		genC37, runC37)
 }
